@@ -234,7 +234,7 @@ impl Message {
             4 => RDAStatus::Standby,
             8 => RDAStatus::Restart,
             16 => RDAStatus::Operate,
-            32 => RDAStatus::Spare,
+            32 | 64 => RDAStatus::Spare,
             _ => panic!("Invalid RDA status: {}", self.rda_status),
         }
     }
@@ -304,8 +304,8 @@ impl Message {
     pub fn rda_control_authorization(&self) -> ControlAuthorization {
         match self.rda_control_authorization {
             0 => ControlAuthorization::NoAction,
-            1 => ControlAuthorization::LocalControlRequested,
-            2 => ControlAuthorization::RemoteControlRequested,
+            2 => ControlAuthorization::LocalControlRequested,
+            4 => ControlAuthorization::RemoteControlRequested,
             _ => panic!(
                 "Invalid RDA control authorization: {}",
                 self.rda_control_authorization
@@ -351,7 +351,7 @@ impl Message {
             1 => ClutterMitigationDecisionStatus::Enabled,
             _ => {
                 let mut segments = Vec::new();
-                for i in 0..5 {
+                for i in 1..=5 {
                     if self.clutter_mitigation_decision_status & (1 << i) != 0 {
                         segments.push(i);
                     }
@@ -385,7 +385,7 @@ impl Message {
 
     /// Indicates whether this is the RDA system's controlling channel.
     pub fn controlling_channel(&self) -> bool {
-        self.channel_control_status & 1 != 0
+        self.channel_control_status & 1 == 0
     }
 
     /// The RDA system's spot blanking status.
